@@ -8,7 +8,7 @@ From Coq Require Import List NArith ZArith Bool.
 From GoGit Require Import Base.Out Model.PktLine Model.C35Utf8 Model.Packp Model.PackpV2
   Proofs.C34Pkt Proofs.C35Base Proofs.C35Msgs Proofs.C35Caps Proofs.C35Adv Proofs.C35Upd Proofs.C35Ul
   Proofs.C35V2Base Proofs.C35V2Caps Proofs.C35V2Fetch Proofs.C35V2Ls Proofs.C35V2Out
-  Spec.GitProto Proofs.C35Git Proofs.C35GitV2 Proofs.C35GitV0 Proofs.C35GitAdv Proofs.C35GitUpd Proofs.C35GitCmd.
+  Spec.GitProto Proofs.C35Git Proofs.C35GitV2 Proofs.C35GitV0 Proofs.C35GitAdv Proofs.C35GitUpd Proofs.C35GitCmd Proofs.C35GitOut.
 Import ListNotations.
 
 (* capability.List: DecodeList (l.String()) = l for lists with distinct,
@@ -314,6 +314,13 @@ Theorem C35_lsout_git : forall hexsz refs, forallb lsref_ok refs = true -> foral
   git_lsout hexsz (lsout_encode refs ++ [PFlush]) [] = Some (flat_map (gls_of refs) refs).
 Proof. exact git_lsout_enc. Qed.
 Print Assumptions C35_lsout_git.
+
+(* v2 fetch output up to the packfile data: the sections in the order of the grammar, acknowledgments with
+   "ready" exactly in front of a delim-pkt, the packfile header last — or acknowledgments and a flush-pkt *)
+Theorem C35_fetchout_git : forall hexsz o ps, fetchout_ok o = true -> fo_git_ok hexsz o = true -> fetchout_encode o = Some ps ->
+  git_fetchout hexsz ps = Some (fo_abs o).
+Proof. exact git_fetchout_enc. Qed.
+Print Assumptions C35_fetchout_git.
 
 (* ---------- non-vacuity ---------- *)
 From Coq Require Import String.
